@@ -7,7 +7,8 @@ import RedisVerif.Model.Resp
     D1 <hex> | D2 <hex>        → outcome of decoder 1 / 2 (value, consumed) + big allocation requests
     N1 <depth> <stack> | N2 …  → decode `*1\r\n` × depth ++ `:1\r\n` on a thread with <stack> bytes
                                   of stack (model: at most stack/16 frames fit)
-    E1|E2|E3 <value>           → encoder output (hex)
+    E1|E2|E3|E4|E5 <value>     → encoder output (hex); EE / EE5 <hex text> → error encoders
+    CE <hex arg> …             → a command as a frame (client-side encoder 6)
     F1|F2 <hex> <cuts>         → frames produced by the buffer loop when the bytes arrive cut at
                                   the given offsets (`-` = one piece)
     L <hex>                    → String::from_utf8_lossy
@@ -146,7 +147,7 @@ def feedOp (codec : Nat) (args : List String) : String :=
 
 def encodeOp (k : Nat) (args : List String) : String :=
   match valP.run args with
-  | some (v, []) => hexOfBytes (if k = 2 then encode2 v else if k = 1 then encode1 v else if k = 3 then encode3 v else encode4 v)
+  | some (v, []) => hexOfBytes (if k = 2 then encode2 v else if k = 1 then encode1 v else if k = 3 then encode3 v else if k = 4 then encode4 v else encode5 v)
   | _ => "bad-op"
 
 def step (line : String) : String :=
@@ -162,6 +163,16 @@ def step (line : String) : String :=
   | "E2" :: args => encodeOp 2 args
   | "E3" :: args => encodeOp 3 args
   | "E4" :: args => encodeOp 4 args
+  | "E5" :: args => encodeOp 5 args
+  | ["EE5", h] =>
+    match runP bytesTok h with
+    | some bs => hexOfBytes (encodeErr5 bs)
+    | none => "bad-op"
+  | "CE" :: args =>
+    -- encoder 6 (client side): a command as an array of bulk strings
+    match args.mapM (fun a => runP bytesTok a) with
+    | some as => hexOfBytes (encode2 (.array (as.map Val.bulk)))
+    | none => "bad-op"
   | ["EE", h] =>
     match runP bytesTok h with
     | some bs => hexOfBytes (encodeErr bs)
